@@ -29,7 +29,7 @@ from apischema.conversions import Conversion, as_str, catch_value_error
 
 # =================== bytes =====================
 
-deserializer(Conversion(b64decode, source=str, target=bytes))
+deserializer(Conversion(catch_value_error(b64decode), source=str, target=bytes))
 
 
 @serializer
@@ -93,7 +93,7 @@ for cls in (PurePath, PurePosixPath, PureWindowsPath, Path, PosixPath, WindowsPa
 def _compile(pattern: str) -> re.Pattern:
     try:
         return re.compile(pattern)
-    except re.error as err:
+    except (re.error, RecursionError, OverflowError) as err:
         raise ValidationError(str(err))
 
 
